@@ -1,14 +1,24 @@
 (* C15 - the Wireshark dissector attributes each field its true byte range.  Statements only.
    sem_lua_run (coq/Lua/LuaIR.v) is the written-down Wireshark Lua API: it returns the
    (field, offset, length) triples passed to tree:add and the final offset; ranges
-   (coq/Lua/Ranges.v) is derived from the wire specification, independently of the generator. *)
-From FP Require Import LuaIR Lua Ranges LuaOracle LuaFrag LuaFlat.
+   (coq/Lua/Ranges.v) is derived from the wire specification, independently of the generator;
+   gen_lua (coq/Gen/Lua.v) is the model of the real Lua generator, compared with the emitted
+   script on every run.
 
-(* PARTIAL: proved for root packets made of non-repeated scalars and fixed strings (the base
-   case on which the running offset is a sum of constants).  The full fragment lua_frag
-   (Gen/LuaFrag.v: also dynamic strings, lists of scalars/strings, empty match payloads) is
-   checked by evaluation on every run, not proved; outside it the property is REFUTED by the
-   recorded findings (objects and match payloads do not carry the offset out of sub-dissectors). *)
+   PARTIAL.  Proved, for EVERY model of the fragment and EVERY message (Proofs/LuaFrag2.v):
+     lua_frag2  root packets of scalars, length-of and checksum fields, fixed strings, dynamic
+                strings and lists of those (unsigned 1/2/4-byte prefixes): the dissector displays
+                exactly the true ranges and ends at the end of the message;
+     lua_frag4  additionally match fields over empty packets (for typed messages).
+   The only side condition on the message is the loop budget of the semantics (30000 list elements
+   per run, a constant of sem_lua_run).  lua_frag4 M = true -> lua_frag M = true: the fragment the
+   harness evaluates on every run contains the proved one.  Outside lua_frag4 the property is
+   REFUTED by the recorded findings (object fields and non-empty match payloads do not carry the
+   offset out of their sub-dissector, ProtoField.int, forward references, u64 prefixes, reserved
+   words). *)
+From FP Require Import LuaIR Lua Ranges LuaOracle LuaFrag LuaFlat Typed LuaFrag2.
+From Coq Require Import String List.
+
 Theorem C15_flat_fixed_width_partial :
   forall (M : bmodel) (root : packet) (v : value) (fuel fuel' : nat)
          (b : list byte) (r : list (string * nat * nat)) (n : nat),
@@ -19,3 +29,47 @@ Theorem C15_flat_fixed_width_partial :
     sem_lua_run (gen_lua M) fuel' b = LOk (r, n) /\ n = length b.
 Proof. exact lua_fixed_flat_correct. Qed.
 Print Assumptions C15_flat_fixed_width_partial.
+
+(* scalars, fixed and dynamic strings, lists of those, length-of and checksum fields *)
+Theorem C15_strings_and_lists_partial :
+  forall (M : bmodel) (root : packet) (v : value) (fuel fuel' : nat)
+         (b : list byte) (r : list (string * nat * nat)) (n : nat),
+    root_packet M = Some root ->
+    lua_frag2 M = true ->
+    (msg_elems v <= loop_budget \/ length r <= loop_budget)%nat ->
+    layout no_cs M fuel root v = Some b ->
+    ranges M fuel root v = Some (r, n) ->
+    sem_lua_run (gen_lua M) fuel' b = LOk (r, n) /\ n = length b.
+Proof. exact lua_frag2_correct. Qed.
+Print Assumptions C15_strings_and_lists_partial.
+
+(* ... and match fields over empty packets, for typed messages *)
+Theorem C15_empty_match_payloads_partial :
+  forall (M : bmodel) (root : packet) (v : value) (fuel fuel' : nat)
+         (b : list byte) (r : list (string * nat * nat)) (n : nat),
+    root_packet M = Some root ->
+    lua_frag4 M = true ->
+    typed M fuel root v = true ->
+    (1 <= fuel')%nat ->
+    (msg_elems v <= loop_budget \/ length r <= loop_budget)%nat ->
+    layout no_cs M fuel root v = Some b ->
+    ranges M fuel root v = Some (r, n) ->
+    sem_lua_run (gen_lua M) fuel' b = LOk (r, n) /\ n = length b.
+Proof. exact lua_frag4_correct. Qed.
+Print Assumptions C15_empty_match_payloads_partial.
+
+(* what the proved fragment covers, and that the evaluated fragment contains it *)
+Theorem C15_fragment_covers :
+  forall (M : bmodel) (root : packet),
+    root_packet M = Some root ->
+    forallb (simple_field M) (p_fields root) = true ->
+    nodup_str (sub_function_names M) = true ->
+    len_ok root (p_fields root) = true ->
+    lua_frag2 M = true.
+Proof. exact lua_frag2_covers. Qed.
+Print Assumptions C15_fragment_covers.
+
+Theorem C15_fragment_inclusions :
+  forall M, (lua_frag2 M = true -> lua_frag4 M = true) /\ (lua_frag4 M = true -> lua_frag M = true).
+Proof. intro M. split; [apply lua_frag2_frag4|apply lua_frag4_frag]. Qed.
+Print Assumptions C15_fragment_inclusions.
